@@ -35,8 +35,8 @@ UNITS = {
                "fn_props": {**PRELUDE_FNS, "run": ["C08"], "user_interface": ["C20"], "note_prompt": ["C20"], "lemma_least_undefined": ["C19", "C14"],
                             "get_type|get_source_map": ["C08", "C14"]},
                "assumes": [
-                   "unit driver: ASSUMED contract of `preprocess` (whole-parse invariants of the assembler: every emitted instruction has a source-map entry, label/procedure values <= number of instructions, positions inside the text < 2^31); per production they are the emission contracts of unit `assembler`, the induction over the parse is not discharged",
-                   "unit driver: ASSUMED contract of `Interpreter::parse` (a returned jump target is a code-label value, a procedure entry or a return position; symbol tables unchanged; the line \"hlt\" is answered HALT); per production: units `transfer` and Kani h_control_*",
+                   "unit driver: ASSUMED contract of `preprocess` (whole-parse invariant of the assembler: every emitted instruction has a source-map entry, code-label and procedure values <= number of instructions, positions inside the text < 2^31). Its preservation is PROVED for each of the 126 productions under contract in unit `assembler` (clause asm.output_invariant_preserved); what stays assumed is the induction over the LR parse and the productions not under contract (macro definition / use)",
+                   "unit driver: ASSUMED contract of `Interpreter::parse` (a returned jump target is a code-label value, a procedure entry or a return position; symbol tables unchanged; the line \"hlt\" is answered HALT). PROVED for call / ret / jumps_loops in unit `transfer` (clause it.targets_stay_inside_the_program) and for hlt in Kani unit h_control_*; every other production's Kani unit pins its returned State (none is JMP); that those productions do not touch the context is assumed",
                    "unit driver: stubs of DataParser::parse, PrintParser::parse, int_13, int_21 only record the call in the ghost trace (their behaviour is under contract in units loader / printer / interrupts); get_err_pos ordering assumed (LexerHelper::get_line is a BOUNDED Kani unit); Regex / String text helpers unspecified",
                    "unit driver: assumed: a &str lookup in HashMap<String,_> finds the String with the same characters; Strings with equal characters are equal; str::trim / to_ascii_lowercase are uninterpreted functions; std::process::exit does not return; vstd's BTreeSet traversal spec with obeys_cmp for (usize, String)",
                    "unit driver: rewrites R7-R10 (ghost arguments / proof hints, String == literal, source slices in messages logged as opaque values: the slicing itself is NOT checked, local `int` renamed)",
@@ -145,6 +145,7 @@ EMIT_CONTRACT = """    requires old(context).mapper.v_next() < usize::MAX,
         // the symbol tables are untouched, so a label defined next denotes the following instruction
         final(context).label_map@ == old(context).label_map@, final(context).fn_map@ == old(context).fn_map@,
         final(context).data_counter == old(context).data_counter,
+        asm_inv(old(context), old(out)) ==> asm_inv(final(context), final(out)), //# C08,C16 asm.output_invariant_preserved
 """
 
 
